@@ -774,6 +774,25 @@ pub fn c04_conc(_sc: &Scenario, hx: &Hx, v: &mut Verdict) {
             }
         }
     }
+    // every delete that hid an entry also releases it: with nothing left in the queue, no entry may
+    // still be held under the mark of a delete (hidden from reads, charged, refusing new puts)
+    if hx.first_shutdown_inv().is_none() {
+        if let Some(o) = hx.obs_named("pre") {
+            for e in o.store.iter().filter(|e| e.3) {
+                v.fail(
+                    "C04",
+                    "C04/hidden-by-delete-but-never-released/quiescent".to_string(),
+                    format!(
+                        "at quiescence k{} (id {}) is still held under a delete's mark: no read returns it, its weight {:?} stays charged and no Delete command is left to release it",
+                        e.0,
+                        e.1,
+                        o.weights.iter().find(|w| w.0 == e.1).map(|w| w.3)
+                    ),
+                    hx.len,
+                );
+            }
+        }
+    }
     if window_read {
         v.probes.push("read_between_delete_return_and_worker_delete");
     }
@@ -1077,6 +1096,28 @@ pub fn c15(sc: &Scenario, hx: &Hx, rec: &crate::sched::SchedRecord, chans: &[cra
         v.probes.push("consumer_withheld_for_whole_run");
     }
     if hx.first_shutdown_inv().is_none() {
+        // with every reader back (and the consumer wherever it happens to be) each hit is accounted
+        if let Some((seq, o)) = hx.obs.iter().find(|o| o.1.label == "readers-quiet") {
+            let buffered: u64 = o.buffered.iter().map(|b| b.len() as u64).sum();
+            let s = &o.stats;
+            let hit_count: u64 = hx.reads.iter().filter(|r| r.ret < *seq).map(|r| r.vals.iter().filter(|x| x.is_some()).count() as u64).sum::<u64>();
+            if hit_count != buffered + s.access_added + s.access_dropped {
+                let class = if hit_count > buffered + s.access_added + s.access_dropped { "unaccounted" } else { "double-counted" };
+                v.fail(
+                    "C15",
+                    format!("C15/{}-while-consumer-lags/{}", class, ctx),
+                    format!(
+                        "all readers have returned, the consumer has not caught up: {} successful reads != buffered {} + AccessAdded {} + AccessDropped {}",
+                        hit_count, buffered, s.access_added, s.access_dropped
+                    ),
+                    *seq,
+                );
+            }
+            let applied: u64 = hx.hooks.iter().filter(|h| h.0 < *seq).map(|h| if let Hook::BatchApplied { hashes } = &h.2 { hashes.len() as u64 } else { 0 }).sum();
+            if applied < s.access_added {
+                v.probes.push("records_in_flight_when_readers_were_done");
+            }
+        }
         if let Some(o) = hx.obs_named("post") {
             let buffered: u64 = o.buffered.iter().map(|b| b.len() as u64).sum();
             let s = &o.stats;
@@ -1293,6 +1334,7 @@ pub fn c07_conc(_sc: &Scenario, hx: &Hx, v: &mut Verdict) {
     marks.sort();
     let mut mark_pos = 0usize;
     let mut soft: std::collections::HashSet<u32> = Default::default();
+    let mut at_begin: HashMap<AckId, (Option<(u64, bool, u64)>, bool)> = HashMap::new();
     for (s, _role, ev) in &hx.hooks {
         while mark_pos < marks.len() && marks[mark_pos].0 < *s {
             if present.contains_key(&marks[mark_pos].1) {
@@ -1301,6 +1343,14 @@ pub fn c07_conc(_sc: &Scenario, hx: &Hx, v: &mut Verdict) {
             mark_pos += 1;
         }
         match ev {
+            Hook::ApplyBegin { ack, .. } => {
+                // what the key looked like when the worker picked the command up: a put that makes
+                // room by evicting the readable incarnation of its own key has still overwritten it
+                if let Some(ix) = hx.widx.get(ack) {
+                    let w = &hx.writes[*ix];
+                    at_begin.insert(*ack, (present.get(&w.key).copied(), soft.contains(&w.key)));
+                }
+            }
             Hook::ApplyEnd { ack, st } => {
                 let w = match hx.widx.get(ack) {
                     Some(ix) => &hx.writes[*ix],
@@ -1309,8 +1359,9 @@ pub fn c07_conc(_sc: &Scenario, hx: &Hx, v: &mut Verdict) {
                 let kind = w.cmd_kind.as_deref().unwrap_or("");
                 if kind == "Put" || kind == "PutWithTTL" {
                     if *st == St::Accepted {
-                        if let Some((old_id, has_ttl, old_val)) = present.get(&w.key) {
-                            if !*has_ttl && !ttl_touched.contains(&w.key) && !soft.contains(&w.key) {
+                        let (before, soft_before) = at_begin.get(ack).copied().unwrap_or((present.get(&w.key).copied(), false));
+                        if let Some((old_id, has_ttl, old_val)) = before.as_ref() {
+                            if !*has_ttl && !ttl_touched.contains(&w.key) && !soft.contains(&w.key) && !soft_before {
                                 v.fail(
                                     "C07",
                                     format!("C07/overwrote-readable/conc,variant={}", opname(&w.op)),
@@ -1374,6 +1425,58 @@ pub fn c07_conc(_sc: &Scenario, hx: &Hx, v: &mut Verdict) {
             }
         }
     }
+    // a put made after a delete of the key was *acknowledged* (with whatever status: commands are
+    // answered in submission order, so every earlier delete is complete too) is never refused as
+    // "already exists", provided no put / upsert of the key could have been applied in between
+    let mut judged_after_delete = false;
+    for p in hx.writes.iter().filter(|w| w.is_put() && w.status() == Some(St::RejExists)) {
+        let d = hx
+            .writes
+            .iter()
+            .filter(|d| d.is_delete() && d.key == p.key && d.ok)
+            .filter(|d| matches!(d.status(), Some(St::Accepted) | Some(St::RejNoKey)))
+            .filter(|d| d.done_seq().map(|a| a < p.inv).unwrap_or(false))
+            .max_by_key(|d| d.inv);
+        let d = match d {
+            Some(d) => d,
+            None => continue,
+        };
+        let p_ret = p.ret.unwrap_or(u64::MAX);
+        let quiet = hx.writes.iter().filter(|w| w.key == p.key && !w.is_delete() && !(w.t == p.t && w.i == p.i)).all(|w| {
+            let before = if w.refused || (w.ret.is_some() && !w.ok) {
+                w.ret.map(|r| r < d.inv).unwrap_or(false)
+            } else if w.upsert_in_place() && w.done_seq().is_none() {
+                false
+            } else {
+                w.done_seq().map(|x| x < d.inv).unwrap_or(false)
+            };
+            before || w.inv > p_ret
+        });
+        if !quiet {
+            continue;
+        }
+        judged_after_delete = true;
+        v.fail(
+            "C07",
+            "C07/absent-rejected-as-existing/conc,state=deleted-and-acknowledged".to_string(),
+            format!(
+                "{} was refused with KeyAlreadyExists although {} had been acknowledged ({:?}) before the put began and nothing else wrote k{} in between",
+                fmt_op(p),
+                fmt_op(d),
+                d.status().unwrap(),
+                p.key
+            ),
+            p.ret.unwrap_or(hx.len),
+        );
+    }
+    if hx.writes.iter().any(|p| {
+        p.is_put()
+            && hx.writes.iter().any(|d| d.is_delete() && d.key == p.key && d.done_seq().map(|a| a < p.inv).unwrap_or(false))
+            && hx.writes.iter().any(|d0| d0.is_delete() && d0.key == p.key && d0.queued() && d0.acked.map(|a| a > p.inv).unwrap_or(true))
+    }) {
+        v.probes.push("put_after_acknowledged_delete_with_older_delete_still_queued");
+    }
+    let _ = judged_after_delete;
     // in-place upserts change values of present keys; they do not change presence
     if raced {
         v.probes.push("worker_side_existence_check_fired");
